@@ -216,6 +216,34 @@ Section Main.
       + cbn [ans_of query_spec]. rewrite Hu, Es. reflexivity.
   Qed.
 
+  (* a decode that raises leaves the memo unset: the retry fails the same way, later queries are unaffected *)
+  Lemma ref_LineEntriesFailing s afs u e c : Inv F s -> frames_rel F s afs ->
+    valid_op F (LineEntriesFailing u e c) = true -> refines s afs (LineEntriesFailing u e c).
+  Proof.
+    intros HI Hfr Hv. cbn [valid_op] in Hv. destruct (has_unit_some _ Hv) as (ud & Hu).
+    destruct (get_CU_at_ok F WF fuel Hfu s u ud HI Hu) as (s1 & id & E1 & HI1 & X1 & Hat).
+    destruct (line_program_for_CU_ok F WF fuel Hfu s1 id u ud HI1 Hat Hu) as (s2 & E2 & HI2 & X2 & Hlp).
+    destruct (dr_stmt (node_raw (ud_tree ud))) as [off|] eqn:Es.
+    - destruct (Hlp off eq_refl) as (lp & ld & Hd & Hz).
+      destruct (Z.leb_spec 0 c).
+      + eapply query_finish with (s' := set_cur s2 (upd_nth S_LINE (fun _ => c) (cur s2))) (r := Err e);
+          [exact Hfr| | | | |reflexivity].
+        * cbn [run_op]. rewrite (bind_ok _ _ _ _ _ E1), (bind_ok _ _ _ _ _ E2).
+          destruct (Z.leb_spec 0 c); [reflexivity|lia].
+        * apply Inv_set_cur; auto. apply upd_nth_length.
+        * eapply ext_trans; [|apply ext_set_cur]. eapply ext_trans; eauto.
+        * cbn [ans_of query_spec]. rewrite Hu, Es, Hz. reflexivity.
+      + eapply query_finish with (s' := s2) (r := Err e); [exact Hfr| |exact HI2| | |reflexivity].
+        * cbn [run_op]. rewrite (bind_ok _ _ _ _ _ E1), (bind_ok _ _ _ _ _ E2).
+          destruct (Z.leb_spec 0 c); [lia|reflexivity].
+        * eapply ext_trans; eauto.
+        * cbn [ans_of query_spec]. rewrite Hu, Es, Hz. reflexivity.
+    - eapply query_finish with (s' := s2) (r := Ok ANone); [exact Hfr| |exact HI2| | |reflexivity].
+      + cbn [run_op]. rewrite (bind_ok _ _ _ _ _ E1), (bind_ok _ _ _ _ _ E2). reflexivity.
+      + eapply ext_trans; eauto.
+      + cbn [ans_of query_spec]. rewrite Hu, Es. reflexivity.
+  Qed.
+
   (* ---- call-frame information: the list a client holds and the decoded-table memos of its entries *)
   Definition upd_held (s : state) (eh : bool) (v : option (list (option Z))) : state :=
     set_cfis s (if eh then (fst (cfis s), v) else (v, snd (cfis s))).
